@@ -430,6 +430,10 @@ func (x *session) startTLS() bool {
 		return false
 	}
 	if x.s.cfg.HSGarbage {
+		// answer the client's first bytes (a ClientHello) with something that is not TLS; written
+		// earlier it would be swallowed by the client's cleartext reader together with the 220
+		_ = x.c.SetReadDeadline(time.Now().Add(10 * time.Second))
+		_, _ = x.br.Peek(1)
 		_ = x.write("this is not a TLS record at all\r\n")
 		x.s.rec.Emit("tls", "ok", false)
 		// drain; anything that is not a TLS record is recorded as cleartext
